@@ -212,6 +212,28 @@ theorem listItemSchema_of_shaped (g : Graph) (props : List Prop') (h : ListShape
       | array e => simp [ha] at h
       | map e => simp [ha] at h
 
+/-- whatever `checkListMethod` accepts, `buildListRequest`'s own shape checks accept -/
+theorem listShaped_of_compile (g : Graph) (props : List Prop') (h : compileListShapeOk (some props) = true)
+    (hk : ItemRefsOk g props) : ListShaped g (some props) = true := by
+  unfold compileListShapeOk at h
+  unfold ListShaped
+  simp only [] at h ⊢
+  cases ha : arrayElems props with
+  | nil => simp [ha] at h
+  | cons e rest =>
+    cases rest with
+    | cons e2 rest2 => simp [ha] at h
+    | nil =>
+      cases e with
+      | object r =>
+        obtain ⟨n, hn, hkind⟩ := hk r (by simp [ha])
+        simp [hn, hkind]
+      | scalar => simp [ha] at h
+      | oneof r => simp [ha] at h
+      | enum r => simp [ha] at h
+      | array e => simp [ha] at h
+      | map e => simp [ha] at h
+
 theorem buildListRequest_ok (g : Graph) (resp : Option (List Prop')) (hs : ListShaped g resp = true)
     (hf : FlatLinked g) (hl : Linked g) (hb : NoBadDefaults g) :
     ∃ lr, buildListRequest g resp = some (.ok lr) := by
